@@ -122,6 +122,19 @@ def dRemoveEdgeCore (g : G L) (i j : Nat) : G L :=
 def dRemoveEdge (g : G L) (i j : Nat) : G L × Res Unit :=
   if !(g.inR i && g.inR j) then (g, .threw .oor) else (g.dRemoveEdgeCore i j, .ok ())
 
+/-- `g.removeEdge(i, g.getOutNeighbours(i).front())` — the emptying idiom, whose second argument refers into
+the list the call edits (a value here).  `false`: the list was empty and nothing was called. -/
+def dRemoveFrontEdge (g : G L) (i : Nat) : G L × Res Bool :=
+  match g.getOutNeighbours i with
+  | .ok [] => (g, .ok false)
+  | .ok (j :: _) =>
+    match g.dRemoveEdge i j with
+    | (g', .ok _) => (g', .ok true)
+    | (g', .threw e) => (g', .threw e)
+    | (g', .ub) => (g', .ub)
+  | .threw e => (g, .threw e)
+  | .ub => (g, .ub)
+
 /-- `removeSelfLoops()` -/
 def dRemoveSelfLoops (g : G L) : G L :=
   (List.range g.size).foldl (fun g i => g.dRemoveEdgeCore i i) g
